@@ -136,9 +136,12 @@ CHECKS = {
             'code point in five contexts, every documented function at arities 0..3/4 over a pool holding a value of every '
             'type, every prefix/suffix/deletion of a corpus, and every placement of <= 1/2 misbehaving callbacks (17 '
             'exception kinds, 10 odd return values) over every callback invocation of 14 templates are parsed; the record '
-            'must be well-formed and the call must finish within 200 000 interpreter line events.',
-            'Trusted: sys.monitoring line/jump events as the measure of "bounded time" (C-level loops are outside it; '
-            'magnitudes are capped at 1000 so none is reachable).', 'DESIGN.md §5 C01'),
+            'must be well-formed and the call must finish within 200 000 interpreter line events. Deep nesting (1 500-3 000 '
+            'levels of brackets, calls, host lists) and prefix+unit^N repetition families (under a wall-clock alarm, for '
+            'stalls below the Python level such as regex backtracking) complete the input space.',
+            'Trusted: sys.monitoring line/jump events as the measure of "bounded time"; for C-level stalls a 10 s + 40 s '
+            'wall-clock alarm (normal parse: 0.1-1 ms). Magnitudes are capped at 1000; self-containing host lists are out of '
+            'bound.', 'DESIGN.md §5 C01, §7'),
     'C17': ('exhaustive enumeration of number pools x digits / significances, boundary-exhaustive 40-bit hex sweeps, all '
             '(n, radix) pairs of the bound, all 1..3999 x ROMAN forms, under a deterministic step budget; ' + K3,
             'Characterising inequalities are checked in exact rationals on every (number, digits) / (number, significance) '
@@ -151,10 +154,12 @@ CHECKS = {
             'with the same bindings), breadth-first closure of the reachable canonical heap fingerprints (each expansion '
             'replayed in a forked child), repetition ladders for retained traceback/frame objects, and exhaustive '
             'host-value immutability sweeps; ' + K1,
-            'All histories of <= 2/3 operations over a 25-operation alphabet (19 residue-leaving formulas incl. failing '
-            'ones and raising callbacks, rebinding, listener on/off) are followed by 16 probes and compared with a fresh '
-            'parser, with debug off and on; the set of heap states reachable by parse operations is searched to a fixpoint '
-            '(93 states on the current tree), which decides the unbounded-repetition clause; every documented function x '
+            'All histories of <= 2/3 operations over a 29-operation alphabet (23 residue-leaving formulas incl. failing '
+            'ones, raising callbacks, reversed ranges and equal-but-differently-typed values; rebinding; listener on/off) '
+            'are replayed in a PRISTINE process (fork server started before anything is evaluated) and followed by 20 '
+            'probes, each compared with its outcome as the only evaluation of a pristine process, with debug off and on; the '
+            'set of heap states reachable by parse operations is searched to a fixpoint (~150 states on the current tree), '
+            'which decides the unbounded-repetition clause; every documented function x '
             'arity <= 2/3 x list-valued argument position is checked for deep-equality of host values before/after.',
             'Trusted: the heap fingerprint (stdlib objects opaque); fork() to restore a state; clock/random seams. PLY '
             'leftovers are part of the state key, not of the oracle.', 'DESIGN.md §5 C02'),
